@@ -83,7 +83,7 @@ func checkC10(c *Check) {
 				return true
 			}
 			v := fieldOf(info, ix.X)
-			if v == nil || v.Name() != "PublicDecls" {
+			if v == nil || !nameIs(v, "PublicDecls") {
 				return true
 			}
 			// enclosing conditions must include a positive test of IsPublic / Public() of the stored declaration
@@ -115,7 +115,7 @@ func checkC10(c *Check) {
 						guarded = true
 					}
 					if call, ok := cj.(*ast.CallExpr); ok {
-						if fn := Callee(info, call); fn != nil && fn.Name() == "Public" {
+						if fn := Callee(info, call); fn != nil && nameIs(fn, "Public") {
 							guarded = true
 						}
 					}
@@ -156,8 +156,8 @@ func checkC10(c *Check) {
 		bad := ""
 		ast.Inspect(fi.Decl.Body, func(n ast.Node) bool {
 			if sel, ok := n.(*ast.SelectorExpr); ok {
-				if v := fieldOf(info, sel); v != nil && v.Pkg() != nil && v.Pkg().Name() == "ast" {
-					switch v.Name() {
+				if v := fieldOf(info, sel); v != nil && v.Pkg() != nil && nameIs(v.Pkg(), "ast") {
+					switch canonName(v) {
 					case "Ast", "Symbols", "Statements":
 						bad = v.Name()
 					}
@@ -188,7 +188,7 @@ func checkC10(c *Check) {
 				for _, st := range cc.Body {
 					ast.Inspect(st, func(m ast.Node) bool {
 						if call, ok := m.(*ast.CallExpr); ok {
-							if fn := Callee(info, call); fn != nil && fn.Name() == "visitNode" {
+							if fn := Callee(info, call); fn != nil && nameIs(fn, "visitNode") {
 								visits = true
 							}
 						}
@@ -229,7 +229,7 @@ func checkC10(c *Check) {
 		var cb *ast.FuncLit
 		ast.Inspect(fi.Decl.Body, func(n ast.Node) bool {
 			if call, ok := n.(*ast.CallExpr); ok {
-				if fn := Callee(info, call); fn != nil && fn.Name() == "IterateModuleImports" && len(call.Args) == 2 {
+				if fn := Callee(info, call); fn != nil && nameIs(fn, "IterateModuleImports") && len(call.Args) == 2 {
 					cb, _ = call.Args[1].(*ast.FuncLit)
 				}
 			}
@@ -250,7 +250,7 @@ func checkC10(c *Check) {
 						for _, n := range b.Nodes {
 							if as, ok := n.(*ast.AssignStmt); ok && len(as.Lhs) == 2 && len(as.Rhs) == 1 {
 								if ix, ok := as.Rhs[0].(*ast.IndexExpr); ok {
-									if v := fieldOf(info, ix.X); v != nil && v.Name() == "importedModules" {
+									if v := fieldOf(info, ix.X); v != nil && nameIs(v, "importedModules") {
 										if okId, ok := as.Lhs[1].(*ast.Ident); ok && info.Defs[okId] == info.Uses[id] && i == 1 {
 											return s | 1
 										}
@@ -266,7 +266,7 @@ func checkC10(c *Check) {
 			for _, b := range g.Blocks {
 				for i, n := range b.Nodes {
 					callsIn(n, func(call *ast.CallExpr) {
-						if fn := Callee(info, call); fn != nil && fn.Name() == "NewCall" && len(call.Args) >= 1 && isModuleInitFunc(info, fi.Decl.Body, call.Args[0]) {
+						if fn := Callee(info, call); fn != nil && nameIs(fn, "NewCall") && len(call.Args) >= 1 && isModuleInitFunc(info, fi.Decl.Body, call.Args[0]) {
 							foundCall = true
 							if mf.StateAt(b, i)&1 == 0 {
 								callOK = false
@@ -275,7 +275,7 @@ func checkC10(c *Check) {
 					})
 					if as, ok := n.(*ast.AssignStmt); ok && len(as.Lhs) == 1 {
 						if ix, ok := as.Lhs[0].(*ast.IndexExpr); ok {
-							if v := fieldOf(info, ix.X); v != nil && v.Name() == "importedModules" && mf.StateAt(b, i)&1 != 0 {
+							if v := fieldOf(info, ix.X); v != nil && nameIs(v, "importedModules") && mf.StateAt(b, i)&1 != 0 {
 								recorded = true
 							}
 						}
@@ -308,7 +308,7 @@ func checkC10(c *Check) {
 							if id, ok := ast.Unparen(x.X).(*ast.Ident); ok && info.Uses[id] == sliceObj {
 								ast.Inspect(x.Body, func(m ast.Node) bool {
 									if call, ok := m.(*ast.CallExpr); ok {
-										if fn := Callee(info, call); fn != nil && fn.Name() == "NewCall" && len(call.Args) >= 1 && isModuleInitFunc(info, fi.Decl.Body, call.Args[0]) {
+										if fn := Callee(info, call); fn != nil && nameIs(fn, "NewCall") && len(call.Args) >= 1 && isModuleInitFunc(info, fi.Decl.Body, call.Args[0]) {
 											ranged = true
 										}
 									}
@@ -316,7 +316,7 @@ func checkC10(c *Check) {
 								})
 							}
 						case *ast.CallExpr:
-							if fn := Callee(info, x); fn != nil && fn.Pkg() != nil && (fn.Pkg().Path() == "sort" || fn.Pkg().Path() == "slices") && strings.Contains(strings.ToLower(fn.Name()), "sort") || (fn != nil && fn.Name() == "Reverse") {
+							if fn := Callee(info, x); fn != nil && fn.Pkg() != nil && (fn.Pkg().Path() == "sort" || fn.Pkg().Path() == "slices") && strings.Contains(strings.ToLower(fn.Name()), "sort") || (fn != nil && nameIs(fn, "Reverse")) {
 								for _, a := range x.Args {
 									if id, ok := ast.Unparen(a).(*ast.Ident); ok && info.Uses[id] == sliceObj {
 										reordered = fn.Name()
@@ -401,62 +401,77 @@ func checkC10(c *Check) {
 	}
 
 	// ---------------- R10.5 ----------------
-	r5 := c.Rule("R10.5", "the module part of mangled names and init/dispose names derives from the module's unique path (Module.FileName)", 3)
-	hm := L.Fn("src/compiler.getHashableModuleName")
-	if hm == nil {
-		r5.Und("compiler.getHashableModuleName", token.NoPos, "function not found")
-	} else {
-		info := hm.Pkg.TypesInfo
-		usesFileName, other := false, ""
-		ast.Inspect(hm.Decl.Body, func(n ast.Node) bool {
-			if sel, ok := n.(*ast.SelectorExpr); ok {
-				if v := fieldOf(info, sel); v != nil && v.Pkg() != nil && v.Pkg().Name() == "ast" {
-					if v.Name() == "FileName" {
-						usesFileName = true
-					} else {
-						other = v.Name()
-					}
-				}
+	// anchor-free: the naming functions are the receiver-less functions of the generator that take a *ast.Module and
+	// return only strings (getHashableModuleName, getModuleInitDisposeName, mangledNameBase today); in each of them the
+	// module may only be read through its FileName field or be handed to another naming function
+	r5 := c.Rule("R10.5", "the module part of mangled names and init/dispose names derives from the module's unique path (Module.FileName)", 2)
+	isModulePtr := func(t types.Type) bool {
+		p, ok := t.(*types.Pointer)
+		return ok && strings.HasSuffix(p.Elem().String(), "/src/ast.Module")
+	}
+	naming := map[*types.Func]*FuncInfo{}
+	L.ForEachFunc([]string{"src/compiler"}, func(fi *FuncInfo) {
+		sig := fi.Obj.Type().(*types.Signature)
+		if sig.Recv() != nil || sig.Results().Len() == 0 {
+			return
+		}
+		for i := 0; i < sig.Results().Len(); i++ {
+			if b, ok := sig.Results().At(i).Type().Underlying().(*types.Basic); !ok || b.Kind() != types.String {
+				return
 			}
-			if call, ok := n.(*ast.CallExpr); ok {
-				if fn := Callee(info, call); fn != nil && fn.Pkg() != nil && fn.Pkg().Name() == "ast" {
-					other = fn.Name() + "()"
+		}
+		for i := 0; i < sig.Params().Len(); i++ {
+			if isModulePtr(sig.Params().At(i).Type()) {
+				naming[fi.Obj] = fi
+			}
+		}
+	})
+	readsFileName := false
+	for _, fi := range L.sortedFuncs() {
+		if naming[fi.Obj] == nil {
+			continue
+		}
+		info := fi.Pkg.TypesInfo
+		sig := fi.Obj.Type().(*types.Signature)
+		var modParam types.Object
+		for i := 0; i < sig.Params().Len(); i++ {
+			if isModulePtr(sig.Params().At(i).Type()) {
+				modParam = sig.Params().At(i)
+			}
+		}
+		okUse, n, other := true, 0, ""
+		var stack []ast.Node
+		ast.Inspect(fi.Decl.Body, func(m ast.Node) bool {
+			if m == nil {
+				stack = stack[:len(stack)-1]
+				return true
+			}
+			stack = append(stack, m)
+			id, ok := m.(*ast.Ident)
+			if !ok || info.Uses[id] != modParam {
+				return true
+			}
+			n++
+			switch p := stack[len(stack)-2].(type) {
+			case *ast.CallExpr:
+				if fn := Callee(info, p); fn != nil && naming[fn.Origin()] != nil {
+					return true
 				}
+				okUse, other = false, "a call of "+L.Src(p.Fun)
+			case *ast.SelectorExpr:
+				if v := fieldOf(info, p); v != nil && nameIs(v, "FileName") {
+					readsFileName = true
+					return true
+				}
+				okUse, other = false, "Module."+p.Sel.Name
+			default:
+				okUse, other = false, "another use of the module"
 			}
 			return true
 		})
-		r5.Decide(usesFileName && other == "", "compiler.getHashableModuleName|derived from FileName", hm.Decl.Pos(), "a function of Module.FileName (the absolute path under which the module is registered)", "the per-module name is derived from "+other+" instead of (only) Module.FileName: two modules that share that value get the same symbol names")
-		for _, nm := range []string{"mangledNameBase", "getModuleInitDisposeName"} {
-			fi := L.Fn("src/compiler." + nm)
-			if fi == nil {
-				r5.Und("compiler."+nm, token.NoPos, "function not found")
-				continue
-			}
-			// every use of the module parameter goes into getHashableModuleName
-			var modParam types.Object
-			for _, f := range fi.Decl.Type.Params.List {
-				if t := info.TypeOf(f.Type); t != nil && strings.HasSuffix(t.String(), "/src/ast.Module") && len(f.Names) == 1 {
-					modParam = info.Defs[f.Names[0]]
-				}
-			}
-			okUse, n := true, 0
-			var stack []ast.Node
-			ast.Inspect(fi.Decl.Body, func(m ast.Node) bool {
-				if m == nil {
-					stack = stack[:len(stack)-1]
-					return true
-				}
-				stack = append(stack, m)
-				if id, ok := m.(*ast.Ident); ok && modParam != nil && info.Uses[id] == modParam {
-					n++
-					call, isCall := stack[len(stack)-2].(*ast.CallExpr)
-					if !isCall || Callee(info, call) != hm.Obj {
-						okUse = false
-					}
-				}
-				return true
-			})
-			r5.Decide(okUse && n > 0, "compiler."+nm+"|module identity", fi.Decl.Pos(), "the module enters the name only through getHashableModuleName", "the module enters the symbol name through something other than getHashableModuleName: same-named declarations of different modules can collide")
-		}
+		r5.Decide(okUse && n > 0, "compiler."+fi.Obj.Name()+"|module identity", fi.Decl.Pos(), "the module enters the name only through Module.FileName (the absolute path under which the module is registered) or another naming function", "the per-module name is derived from "+other+" instead of (only) Module.FileName: same-named declarations of different modules can get the same symbol names")
+	}
+	if len(naming) > 0 && !readsFileName {
+		r5.Bad("compiler|module identity source", token.NoPos, "no naming function reads Module.FileName: the module part of symbol names does not derive from the module's unique path")
 	}
 }
